@@ -3,18 +3,8 @@ From Coq Require Import NArith List Lia Bool Ascii String.
 Import ListNotations.
 From RCE Require Import model.Board model.Movegen model.Fen model.Uci proofs.UciProofs.
 
-(* the game described: play the named legal moves one after the other *)
-Fixpoint play_game (b : Board) (ms : list string) : option Board :=
-  match ms with
-  | [] => Some b
-  | m :: t => match filter (fun p => String.eqb (to_notation p) m) (get_legal_moves b) with
-              | p :: _ => play_game (make_move b p) t
-              | [] => None
-              end
-  end.
-Definition start_of (k : PosKind) : option Board :=
-  match k with StartPos => Some start_board | FenPos f => from_fen f end.
-Definition moves_of (o : option (list string)) : list string := match o with Some l => l | None => [] end.
+(* play_game, start_of, moves_of (the game described: play the named legal moves one after the
+   other) are defined in proofs/UciProofs.v *)
 
 (* accepted: the session position becomes the described game's position, whatever it was before *)
 Theorem C08_accept : forall s k ms b0 b,
